@@ -24,6 +24,7 @@ package uints
 
 import (
 	"fmt"
+	"math/big"
 	"math/bits"
 
 	"github.com/consensys/gnark/frontend"
@@ -273,8 +274,12 @@ func (bf *BinaryField[T]) Add(a ...T) T {
 	}
 	vres := bf.api.Add(va[0], va[1], va[2:]...)
 	maxBitlen := bits.Len(uint(inLen)) + tLen
-	// bitslice.Partition below checks that the input is less than 2^maxBitlen and that we have omitted carry correctly
-	vreslow, _ := bitslice.Partition(bf.api, vres, uint(tLen), bitslice.WithNbDigits(maxBitlen), bitslice.WithUnconstrainedOutputs())
+	// bitslice.Partition below checks that the input is less than 2^maxBitlen. Its outputs are
+	// unconstrained: the low part is range checked by ValueOf, so we bound the omitted carry and
+	// assert that both parts recompose to the sum.
+	vreslow, vreshigh := bitslice.Partition(bf.api, vres, uint(tLen), bitslice.WithNbDigits(maxBitlen), bitslice.WithUnconstrainedOutputs())
+	bf.rchecker.Check(vreshigh, maxBitlen-tLen)
+	bf.api.AssertIsEqual(vres, bf.api.Add(vreslow, bf.api.Mul(vreshigh, new(big.Int).Lsh(big.NewInt(1), uint(tLen)))))
 	res := bf.ValueOf(vreslow)
 	return res
 }
